@@ -1218,9 +1218,10 @@ class Frame:
         tnode = top[0].targets[0] if isinstance(top[0], ast.Assign) else top[0].target
         if not isinstance(tnode, ast.Name):
             return None
-        if any(isinstance(x, (ast.Call,)) and not (_dotted(x.func) or "").split(".")[-1] in ("log", "exp", "log1p", "sqrt", "float", "int") for x in ast.walk(top[0].value)):
+        if any(isinstance(x, (ast.Call,)) and not (_dotted(x.func) or "").split(".")[-1] in ("log", "exp", "log1p", "sqrt", "float", "int", "attrgetter", "itemgetter") for x in ast.walk(top[0].value)):
             return None
-        if any(isinstance(x, ast.Name) and x.id not in ("np", "numpy", "math") and self.module_constant(module, x.id, depth + 1) is None for x in ast.walk(top[0].value) if not isinstance(x, ast.Attribute)):
+        callees = {id(c.func) for c in ast.walk(top[0].value) if isinstance(c, ast.Call)}
+        if any(isinstance(x, ast.Name) and id(x) not in callees and x.id not in ("np", "numpy", "math") and self.module_constant(module, x.id, depth + 1) is None for x in ast.walk(top[0].value) if not isinstance(x, ast.Attribute)):
             return None
         saved = self.module
         try:
@@ -1237,6 +1238,9 @@ class Frame:
         def const(x):
             if isinstance(x, Poly):
                 if x.is_const():
+                    return True
+                xa = x.as_atom()
+                if xa is not None and xa[0] in ("attrgetter", "itemgetter"):
                     return True
                 try:  # a closed term (log(1), exp(-2), inf ...): the same image under unrelated valuations
                     a, b = Valuation(0, salt="mc0").image(x.key()), Valuation(7, salt="mc1").image(x.key())
@@ -1488,6 +1492,19 @@ class Frame:
             parts = [bound(e.slice.lower), bound(e.slice.upper), bound(e.slice.step)]
             if all(ok for ok, _ in parts) and parts[2][1] != 0:
                 return (AList if isinstance(base, AList) else ATuple)(list(base.items[slice(parts[0][1], parts[1][1], parts[2][1])]))
+        if isinstance(base, AList) and base.items and isinstance(idx, Poly) and not idx.is_const() and all(isinstance(x, ARecord) and x.names == base.items[0].names for x in base.items):
+            # records[i] for a computed i: the record of the i-th value of every field
+            cols = [AList([x.items[j] for x in base.items], list(base.doms)) for j in range(len(base.items[0].names))]
+            return ARecord([Poly.atom(("sub", c.key(), idx.key())) for c in cols], base.items[0].names)
+        ba = base.as_atom() if isinstance(base, Poly) else None
+        if ba is not None and ba[0] == "sub" and not isinstance(e.slice, (ast.Slice, ast.Tuple)) and isinstance(idx, Poly):
+            # row = L[i, :]; row[j]  is  L[i, j]
+            ik = ba[2]
+            if isinstance(ik, tuple) and ik and ik[0] == "tuple" and len(ik) == 3:
+                last = key_atom(ik[2]) if _is_polykey(ik[2]) else None
+                none = vkey(None)
+                if last is not None and last[0] == "slice" and last[1:] == (none, none, none):
+                    return Poly.atom(("sub", ba[1], ("tuple", ik[1], idx.key())))
         slot = ("@sub", vkey(base), vkey(idx))
         if slot in st.env:
             return st.env[slot]
@@ -1545,6 +1562,29 @@ class Frame:
                 return make_cond([(f, v), (TRUE, Poly.atom(("absent",)))])
             return v
 
+        if len(e.generators) == 1:
+            # the sequence is one of several (`xs + [extra] if flag else xs`): one pass over the positions of the
+            # alternatives laid side by side; an element an alternative does not have is absent under its test
+            it = self.eval(e.generators[0].iter, st)
+            alts = _cond_alternatives(it) if isinstance(it, Poly) else None
+            if alts is not None and 1 < len(alts) <= 4:
+                g0 = e.generators[0]
+                lists, doms = [], []
+                for g, v in alts:
+                    els = self.domain_elements(v, g0.iter)
+                    lists.append((g, AList(list(els))))
+                    if not (isinstance(v, (AList, ATuple)) and not getattr(v, "doms", None)):
+                        va = v.as_atom() if isinstance(v, Poly) else None
+                        dk = va[2][0] if (va is not None and va[0] == "call" and va[1] == "concat") else vkey(v)
+                        if dk not in doms:
+                            doms.append(dk)
+                merged = make_cond(lists)
+                if isinstance(merged, AList):
+                    gen = ast.comprehension(target=g0.target, iter=ast.Name(id="@alt", ctx=ast.Load()), ifs=g0.ifs, is_async=0)
+                    s2 = State(st.env, st.guards)
+                    s2.env["@alt"] = AList(list(merged.items))
+                    items, d2 = self.comprehension(elt, [gen], s2)
+                    return AList(items, doms + [d for d in d2 if d not in doms])
         items, doms = self.comprehension(elt, e.generators, st)
         return AList(items, doms)
 
@@ -1587,6 +1627,9 @@ class Frame:
         dotted = _dotted(f)
         # ---- plain / dotted global function names
         if isinstance(f, ast.Name) and f.id not in st.env:
+            mc = self.module_constant(self.module, f.id)
+            if isinstance(mc, Poly) and mc.as_atom() is not None and mc.as_atom()[0] in ("attrgetter", "itemgetter") and not kwargs:
+                return self.apply_ref(mc, list(args), st, e)
             return self.call_named(f.id, f.id, args, kwargs, st, e)
         if dotted and dotted.split(".")[0] not in st.env and not (dotted.split(".")[0] in ("self", "cls")):
             root = dotted.split(".")[0]
@@ -1613,7 +1656,7 @@ class Frame:
             # function it holds, under the condition that selects it
             alts = _cond_alternatives(fv) if isinstance(fv, Poly) else None
             refs = alts if alts is not None else ([(TRUE, fv)] if isinstance(fv, Poly) else [])
-            if refs and not kwargs and all(isinstance(r, Poly) and r.as_atom() is not None and r.as_atom()[0] == "g" for _, r in refs):
+            if refs and not kwargs and all(isinstance(r, Poly) and r.as_atom() is not None and r.as_atom()[0] in ("g", "attrgetter", "itemgetter") for _, r in refs):
                 return make_cond([(g, self.apply_ref(r, list(args), st, e)) for g, r in refs])
             return self.opaque_call("local:" + show(fv) if not isinstance(fv, str) else fv, args, kwargs, st, e)
         raise Unsupported("call of %s" % ast.unparse(f))
@@ -1737,6 +1780,16 @@ class Frame:
             if dotted == "set":
                 return ASet(list(args[0].items), list(getattr(args[0], "doms", [])))
             return Poly.atom(("call", dotted, tuple(sorted({vkey(i) for i in args[0].items}, key=_k)), ()))
+        if dotted == "max" and len(args) == 2 and not kwargs and "max" not in st.env:
+            # max(len(x), 1): a length is a non-negative integer, so this is `1 if len(x) == 0 else len(x)`
+            for n_, one in ((args[0], args[1]), (args[1], args[0])):
+                na = n_.as_atom() if isinstance(n_, Poly) else None
+                if na is not None and na[0] == "call" and na[1] == "len" and isinstance(one, Poly) and one.is_const() and one.const_value() == 1:
+                    return make_cond([(g_cmp("==", n_, Poly.const(0)), Poly.const(1)), (TRUE, n_)])
+        if name in ("operator.attrgetter", "attrgetter") and len(args) == 1 and isinstance(args[0], str) and not kwargs and args[0].isidentifier():
+            return Poly.atom(("attrgetter", args[0]))
+        if name in ("operator.itemgetter", "itemgetter") and len(args) == 1 and not kwargs:
+            return Poly.atom(("itemgetter", vkey(args[0])))
         if dotted == "getattr" and len(args) == 2 and isinstance(args[1], str) and not kwargs and args[1].isidentifier():
             return self.attr_of(args[0], args[1], node.args[0] if isinstance(node, ast.Call) and node.args else None, node, st)
         if dotted == "setattr" and len(args) == 3 and isinstance(args[1], str) and not kwargs and args[1].isidentifier():
@@ -1809,6 +1862,10 @@ class Frame:
     def apply_ref(self, fref, args, st, node):
         """Call a function *reference* (first argument of map): a global function or a bound method."""
         a = fref.as_atom() if isinstance(fref, Poly) else None
+        if a is not None and a[0] == "attrgetter" and len(args) == 1:
+            return self.attr_of(args[0], a[1], None, node, st)
+        if a is not None and a[0] == "itemgetter" and len(args) == 1:
+            return Poly.atom(("sub", vkey(args[0]), a[1]))
         if a is not None and a[0] == "g":
             fi = self.I.prog.functions.get(a[1]) or self.I.prog._resolve_dotted_fn(a[1])
             if fi is None and "." not in a[1]:
